@@ -257,6 +257,9 @@ class Earley:
     def logp(self, x):
         cols = self.chart(x)
         N = len(x)
+        if N == 0:
+            # as in `__call__`: column 0 never holds a complete item
+            return np.log(self(x))
         return np.log(
             cols[N].c_chart.get((0, self.cfg.S), self.cfg.R.zero)
         ) - self.log_rescale(cols, 0, N)
